@@ -19,8 +19,14 @@ type Connection struct {
 	// The WebSocket connection
 	conn *websocket.Conn
 
-	// Buffered channel of outbound messages
+	// Buffered channel of outbound messages. It is never closed: senders on
+	// other goroutines may still hold the connection after it is torn down.
 	send chan []byte
+
+	// done is closed once the connection is torn down (hub unregister,
+	// WritePump exit or Close); it is what senders and WritePump watch.
+	done      chan struct{}
+	closeOnce sync.Once
 
 	// The hub this connection belongs to
 	hub *Hub
@@ -75,12 +81,32 @@ func NewConnection(id string, conn *websocket.Conn, hub *Hub) *Connection {
 		ID:           id,
 		conn:         conn,
 		send:         make(chan []byte, queueSize),
+		done:         make(chan struct{}),
 		hub:          hub,
 		Data:         make(map[string]interface{}),
 		rooms:        make(map[string]bool),
 		PathParams:   make(map[string]string),
 		lastPongTime: time.Now(),
 		messageQueue: make([][]byte, 0),
+	}
+}
+
+// markClosed marks the connection as torn down. Safe to call more than once.
+func (c *Connection) markClosed() {
+	c.closeOnce.Do(func() {
+		if c.done != nil {
+			close(c.done)
+		}
+	})
+}
+
+// isClosed reports whether the connection has been torn down
+func (c *Connection) isClosed() bool {
+	select {
+	case <-c.done:
+		return true
+	default:
+		return false
 	}
 }
 
@@ -157,19 +183,22 @@ func (c *Connection) WritePump() {
 
 	defer func() {
 		ticker.Stop()
+		// Nothing drains the queue any more: release senders blocked on it
+		c.markClosed()
 		c.conn.Close()
 		c.hub.connWg.Done()
 	}()
 
 	for {
 		select {
-		case message, ok := <-c.send:
+		case <-c.done:
+			// The hub unregistered the connection
 			c.conn.SetWriteDeadline(time.Now().Add(config.WriteWait))
-			if !ok {
-				// Hub closed the channel
-				c.conn.WriteMessage(websocket.CloseMessage, []byte{})
-				return
-			}
+			c.conn.WriteMessage(websocket.CloseMessage, []byte{})
+			return
+
+		case message := <-c.send:
+			c.conn.SetWriteDeadline(time.Now().Add(config.WriteWait))
 
 			w, err := c.conn.NextWriter(websocket.TextMessage)
 			if err != nil {
@@ -230,6 +259,10 @@ func (c *Connection) WritePump() {
 func (c *Connection) Send(message []byte) error {
 	config := c.hub.config
 
+	if c.isClosed() {
+		return ErrConnectionClosed
+	}
+
 	select {
 	case c.send <- message:
 		return nil
@@ -262,8 +295,12 @@ func (c *Connection) Send(message []byte) error {
 			fallthrough
 		default:
 			// Block until space is available or connection closes
-			c.send <- message
-			return nil
+			select {
+			case c.send <- message:
+				return nil
+			case <-c.done:
+				return ErrConnectionClosed
+			}
 		}
 	}
 }
